@@ -755,6 +755,10 @@ class WorkflowStateMachine(object):
         if current_workflow_status != new_workflow_status:
             workflow_state.status = new_workflow_status
 
+        cls.fail_on_unreachable_barriers(workflow_state)
+
+    @classmethod
+    def fail_on_unreachable_barriers(cls, workflow_state):
         # If the final workflow status here is completed, then ensure there is no unreachable
         # barrier task(s). A barrier task is unreachable if the workflow is completed but then one
         # or more criteria for the task is satisified. In this case, log the task and fail the
@@ -828,6 +832,14 @@ class WorkflowStateMachine(object):
         # Assign new workflow status if there is change.
         if current_workflow_status != new_workflow_status:
             workflow_state.status = new_workflow_status
+
+        # The workflow completes here when it is resumed with nothing left to run.
+        # Apply the same check for unreachable barrier task(s) as for task events.
+        if event_name in [
+            events.WORKFLOW_RUNNING_WORKFLOW_COMPLETED,
+            events.WORKFLOW_RESUMING_WORKFLOW_COMPLETED,
+        ]:
+            cls.fail_on_unreachable_barriers(workflow_state)
 
     @classmethod
     def process_event(cls, workflow_state, event):
